@@ -50,13 +50,33 @@ var inventoryJSON []byte
 type inventory struct {
 	Funcs  map[string]string `json:"funcs"`  // pkg|Recv|Name -> signature key
 	Fields map[string]string `json:"fields"` // pkg|Type|Field -> type
+	Types  map[string]string `json:"types"`  // pkg|Type -> structural key (underlying type and method set, own name abstracted)
+}
+
+// namedKey describes a named type by its structure, with its own name
+// abstracted away, so that a renamed type can be recognised.
+func namedKey(tn *types.TypeName) string {
+	self := tn.Pkg().Path() + "." + tn.Name()
+	abstract := func(s string) string { return strings.ReplaceAll(s, self, "·") }
+	var b strings.Builder
+	b.WriteString(abstract(typeKey(tn.Type().Underlying())))
+	if named, ok := tn.Type().(*types.Named); ok {
+		var ms []string
+		for i := 0; i < named.NumMethods(); i++ {
+			m := named.Method(i)
+			ms = append(ms, m.Name()+abstract(sigKey(m.Type().(*types.Signature))))
+		}
+		sort.Strings(ms)
+		b.WriteString(" methods:" + strings.Join(ms, ";"))
+	}
+	return b.String()
 }
 
 var pinned *inventory
 
 func loadInventory() *inventory {
 	if pinned == nil {
-		pinned = &inventory{Funcs: map[string]string{}, Fields: map[string]string{}}
+		pinned = &inventory{Funcs: map[string]string{}, Fields: map[string]string{}, Types: map[string]string{}}
 		if len(bytes.TrimSpace(inventoryJSON)) > 0 {
 			json.Unmarshal(inventoryJSON, pinned)
 		}
@@ -142,8 +162,13 @@ func declaredFuncs(p *packages.Package) map[*types.Func]*ast.FuncDecl {
 }
 
 func buildInventory(pkgs []*packages.Package) *inventory {
-	inv := &inventory{Funcs: map[string]string{}, Fields: map[string]string{}}
+	inv := &inventory{Funcs: map[string]string{}, Fields: map[string]string{}, Types: map[string]string{}}
 	for _, p := range modulePkgs(pkgs) {
+		for _, name := range p.Types.Scope().Names() {
+			if tn, ok := p.Types.Scope().Lookup(name).(*types.TypeName); ok && !tn.IsAlias() {
+				inv.Types[p.PkgPath+"|"+name] = namedKey(tn)
+			}
+		}
 		for fn := range declaredFuncs(p) {
 			if fn.Name() == "init" || fn.Name() == "_" {
 				continue
@@ -245,6 +270,65 @@ func (n *normalizer) apply() (map[string][]byte, bool) {
 	return out, true
 }
 
+// renameTypesBack: a pinned named type that disappeared while exactly one new
+// type with the same structure (underlying type, method names and signatures)
+// appeared is that type under a new name.
+func (n *normalizer) renameTypesBack() {
+	inv := loadInventory()
+	if len(inv.Types) == 0 {
+		return
+	}
+	renames := map[types.Object]string{}
+	for _, p := range modulePkgs(n.pkgs) {
+		cur := map[string]*types.TypeName{}
+		for _, name := range p.Types.Scope().Names() {
+			if tn, ok := p.Types.Scope().Lookup(name).(*types.TypeName); ok && !tn.IsAlias() {
+				cur[name] = tn
+			}
+		}
+		claimed := map[*types.TypeName][]string{}
+		for k, key := range inv.Types {
+			if !strings.HasPrefix(k, p.PkgPath+"|") {
+				continue
+			}
+			name := strings.TrimPrefix(k, p.PkgPath+"|")
+			if cur[name] != nil {
+				continue
+			}
+			var cands []*types.TypeName
+			for cn, tn := range cur {
+				if _, isPinned := inv.Types[p.PkgPath+"|"+cn]; isPinned {
+					continue
+				}
+				if namedKey(tn) == key && tn.Exported() == ast.IsExported(name) {
+					cands = append(cands, tn)
+				}
+			}
+			if len(cands) == 1 {
+				claimed[cands[0]] = append(claimed[cands[0]], name)
+			}
+		}
+		for tn, names := range claimed {
+			if len(names) == 1 {
+				renames[tn] = names[0]
+				n.notes = append(n.notes, fmt.Sprintf("normalise: type %s.%s is the pinned type %s under a new name (same structure and methods, pinned name gone); analysed as %s", short(p.PkgPath), tn.Name(), names[0], names[0]))
+			}
+		}
+	}
+	for _, p := range modulePkgs(n.pkgs) {
+		for id, o := range p.TypesInfo.Defs {
+			if nn, ok := renames[o]; ok && o != nil {
+				n.addEdit(id.Pos(), id.End(), nn)
+			}
+		}
+		for id, o := range p.TypesInfo.Uses {
+			if nn, ok := renames[o]; ok {
+				n.addEdit(id.Pos(), id.End(), nn)
+			}
+		}
+	}
+}
+
 // renameBack finds pinned functions/fields that disappeared and a unique
 // same-shape newcomer, and schedules the edits that restore the pinned name.
 func (n *normalizer) renameBack() {
@@ -286,6 +370,71 @@ func (n *normalizer) renameBack() {
 			if len(names) == 1 {
 				renames[fn] = names[0]
 				n.notes = append(n.notes, fmt.Sprintf("normalise: %s is the pinned %s under a new name (same receiver and signature, pinned name gone); analysed as %s", fn.FullName(), names[0], names[0]))
+			}
+		}
+		// a pinned function that became a method of its first parameter's type, or a
+		// pinned method that became a function taking the receiver first
+		decls := declaredFuncs(p)
+		for _, mk := range missing {
+			parts := strings.Split(mk, "|")
+			if len(claimed) > 0 {
+				skip := false
+				for _, names := range claimed {
+					for _, nm := range names {
+						if nm == parts[2] {
+							skip = true
+						}
+					}
+				}
+				if skip {
+					continue
+				}
+			}
+			var cands []*types.Func
+			for k, fn := range cur {
+				if _, isPinned := inv.Funcs[k]; isPinned {
+					continue
+				}
+				sig := fn.Type().(*types.Signature)
+				switch {
+				case parts[1] == "" && sig.Recv() != nil:
+					// pinned function, newcomer method: recv + params == pinned params
+					if flatKey(sig) == inv.Funcs[mk] {
+						cands = append(cands, fn)
+					}
+				case parts[1] != "" && sig.Recv() == nil && sig.Params().Len() > 0:
+					// pinned method, newcomer function
+					rt := sig.Params().At(0).Type()
+					ptr := ""
+					if pt, ok := rt.(*types.Pointer); ok {
+						rt = pt.Elem()
+						ptr = "*"
+					}
+					if nt, ok := rt.(*types.Named); ok && nt.Obj().Name() == parts[1] && ptr+restKey(sig) == inv.Funcs[mk] {
+						cands = append(cands, fn)
+					}
+				}
+			}
+			if len(cands) > 1 {
+				// several newcomers of that shape: the one that kept the name
+				var same []*types.Func
+				for _, c := range cands {
+					if c.Name() == parts[2] {
+						same = append(same, c)
+					}
+				}
+				cands = same
+			}
+			if len(cands) != 1 {
+				continue
+			}
+			fn := cands[0]
+			fd := decls[fn]
+			if fd == nil || fd.Body == nil {
+				continue
+			}
+			if n.convertKind(p, fn, fd, parts[2]) {
+				n.notes = append(n.notes, fmt.Sprintf("normalise: %s is the pinned %s%s turned %s; analysed in its pinned form", short(fn.FullName()), map[bool]string{true: "function ", false: "method " + parts[1] + "."}[parts[1] == ""], parts[2], map[bool]string{true: "into a method", false: "into a function"}[parts[1] == ""]))
 			}
 		}
 		// struct fields
@@ -349,6 +498,180 @@ func (n *normalizer) renameBack() {
 			}
 		}
 	}
+}
+
+// flatKey is sigKey of the signature with the receiver as first parameter.
+func flatKey(sig *types.Signature) string {
+	var b strings.Builder
+	b.WriteString("(")
+	b.WriteString(typeKey(sig.Recv().Type()))
+	for i := 0; i < sig.Params().Len(); i++ {
+		b.WriteString(",")
+		b.WriteString(typeKey(sig.Params().At(i).Type()))
+	}
+	if sig.Variadic() {
+		b.WriteString("...")
+	}
+	b.WriteString(")(")
+	for i := 0; i < sig.Results().Len(); i++ {
+		if i > 0 {
+			b.WriteString(",")
+		}
+		b.WriteString(typeKey(sig.Results().At(i).Type()))
+	}
+	b.WriteString(")")
+	return b.String()
+}
+
+// restKey is sigKey of the signature without its first parameter (and without
+// the receiver marker).
+func restKey(sig *types.Signature) string {
+	var b strings.Builder
+	b.WriteString("(")
+	for i := 1; i < sig.Params().Len(); i++ {
+		if i > 1 {
+			b.WriteString(",")
+		}
+		b.WriteString(typeKey(sig.Params().At(i).Type()))
+	}
+	if sig.Variadic() {
+		b.WriteString("...")
+	}
+	b.WriteString(")(")
+	for i := 0; i < sig.Results().Len(); i++ {
+		if i > 0 {
+			b.WriteString(",")
+		}
+		b.WriteString(typeKey(sig.Results().At(i).Type()))
+	}
+	b.WriteString(")")
+	return b.String()
+}
+
+// convertKind rewrites a method into the pinned function (receiver first) or a
+// function into the pinned method (first parameter as receiver): declaration
+// header and every call in the package. It gives up (false, no edits) when the
+// function is referred to in any other way.
+func (n *normalizer) convertKind(p *packages.Package, fn *types.Func, fd *ast.FuncDecl, pinnedName string) bool {
+	type ed struct {
+		s, e token.Pos
+		text string
+	}
+	var eds []ed
+	toFunc := fd.Recv != nil
+	inner := func(fl *ast.FieldList) string {
+		if fl == nil || len(fl.List) == 0 {
+			return ""
+		}
+		name, s, e := n.offsets(fl.Opening+1, fl.Closing)
+		return strings.TrimSpace(string(n.src(name)[s:e]))
+	}
+	if toFunc {
+		if len(fd.Recv.List) != 1 {
+			return false
+		}
+		recv := inner(fd.Recv)
+		if len(fd.Recv.List[0].Names) == 0 {
+			recv = "_ " + recv
+		}
+		params := inner(fd.Type.Params)
+		hdr := "func " + pinnedName + "(" + recv
+		if params != "" {
+			hdr += ", " + params
+		}
+		hdr += ")"
+		eds = append(eds, ed{fd.Pos(), fd.Type.Params.End(), hdr})
+	} else {
+		if fd.Type.Params == nil || len(fd.Type.Params.List) == 0 || len(fd.Type.Params.List[0].Names) > 1 {
+			return false
+		}
+		first := fd.Type.Params.List[0]
+		fname, fs, fe := n.offsets(first.Pos(), first.End())
+		firstTxt := string(n.src(fname)[fs:fe])
+		if len(first.Names) == 0 {
+			firstTxt = "_ " + firstTxt
+		}
+		rest := ""
+		if len(fd.Type.Params.List) > 1 {
+			_, rs, re := n.offsets(fd.Type.Params.List[1].Pos(), fd.Type.Params.Closing)
+			rest = strings.TrimSpace(string(n.src(fname)[rs:re]))
+		}
+		eds = append(eds, ed{fd.Pos(), fd.Type.Params.End(), "func (" + firstTxt + ") " + pinnedName + "(" + rest + ")"})
+	}
+	for _, q := range modulePkgs(n.pkgs) {
+		for id, o := range q.TypesInfo.Uses {
+			if o != fn {
+				continue
+			}
+			if q != p {
+				return false
+			}
+			f := fileOf(q, id.Pos())
+			path, _ := astutil.PathEnclosingInterval(f, id.Pos(), id.End())
+			if toFunc {
+				// x.m(args) -> F(x, args)
+				if len(path) < 3 {
+					return false
+				}
+				sel, ok := path[1].(*ast.SelectorExpr)
+				call, ok2 := path[2].(*ast.CallExpr)
+				if !ok || !ok2 || sel.Sel != id || ast.Node(call.Fun) != ast.Node(sel) {
+					return false
+				}
+				selection := q.TypesInfo.Selections[sel]
+				if selection == nil || len(selection.Index()) != 1 {
+					return false
+				}
+				rt := fn.Type().(*types.Signature).Recv().Type()
+				at := q.TypesInfo.TypeOf(sel.X)
+				x := n.exprText(sel.X)
+				switch {
+				case types.Identical(at, rt):
+				case types.Identical(types.NewPointer(at), rt):
+					x = "&" + x
+				default:
+					if pt, isP := at.(*types.Pointer); isP && types.Identical(pt.Elem(), rt) {
+						x = "*" + x
+					} else {
+						return false
+					}
+				}
+				args := ""
+				if len(call.Args) > 0 {
+					name, s, e := n.offsets(call.Lparen+1, call.Rparen)
+					args = ", " + strings.TrimSpace(string(n.src(name)[s:e]))
+				}
+				eds = append(eds, ed{call.Pos(), call.End(), pinnedName + "(" + x + args + ")"})
+			} else {
+				// f(a0, rest) -> (a0).M(rest)
+				if len(path) < 2 {
+					return false
+				}
+				call, ok := path[1].(*ast.CallExpr)
+				if !ok || ast.Node(call.Fun) != ast.Node(id) || len(call.Args) == 0 || call.Ellipsis.IsValid() && len(call.Args) == 1 {
+					return false
+				}
+				rest := ""
+				if len(call.Args) > 1 {
+					name, s, e := n.offsets(call.Args[1].Pos(), call.Rparen)
+					rest = strings.TrimSpace(string(n.src(name)[s:e]))
+				}
+				eds = append(eds, ed{call.Pos(), call.End(), "(" + n.exprText(call.Args[0]) + ")." + pinnedName + "(" + rest + ")"})
+			}
+		}
+	}
+	// nested calls of the same function inside each other's arguments would overlap
+	for i := range eds {
+		for j := range eds {
+			if i != j && eds[i].s < eds[j].e && eds[j].s < eds[i].e {
+				return false
+			}
+		}
+	}
+	for _, e := range eds {
+		n.addEdit(e.s, e.e, e.text)
+	}
+	return true
 }
 
 // ---------------------------------------------------------------------------
@@ -995,6 +1318,84 @@ func (n *normalizer) litText(c *callee, call *ast.CallExpr) (string, bool) {
 	return fmt.Sprintf("func(%s)%s {\n//line %s:%d\n%s\n//line %s:%d\n}(%s%s)", strings.Join(params, ", "), res, calleeFile, bodyLine+1, strings.TrimSuffix(strings.TrimPrefix(strings.TrimSpace(printNode(fs, fd.Body)), "{"), "}"), fname, line, strings.Join(args, ", "), ell), true
 }
 
+// valueLit renders a new helper that is used as a function value (`f`, or the
+// method value `x.m` with a pure x) as a function literal with the helper's
+// signature and body.
+func (n *normalizer) valueLit(c *callee, use ast.Expr) (string, bool) {
+	fs, fd := n.freshDecl(c)
+	if fd == nil {
+		return "", false
+	}
+	sig := c.fn.Type().(*types.Signature)
+	bind := ""
+	if sig.Recv() != nil {
+		sel, isSel := use.(*ast.SelectorExpr)
+		if !isSel || !isPureExpr(sel.X) || len(fd.Recv.List) != 1 {
+			return "", false
+		}
+		selection := c.pkg.TypesInfo.Selections[sel]
+		if selection == nil || selection.Kind() != types.MethodVal || len(selection.Index()) != 1 {
+			return "", false
+		}
+		rt := sig.Recv().Type()
+		at := c.pkg.TypesInfo.TypeOf(sel.X)
+		expr := n.exprText(sel.X)
+		switch {
+		case types.Identical(at, rt):
+		case types.Identical(types.NewPointer(at), rt):
+			expr = "&" + expr
+		default:
+			if p, isP := at.(*types.Pointer); isP && types.Identical(p.Elem(), rt) {
+				expr = "*" + expr
+			} else {
+				return "", false
+			}
+		}
+		if len(fd.Recv.List[0].Names) == 1 && fd.Recv.List[0].Names[0].Name != "_" {
+			rname := fd.Recv.List[0].Names[0].Name
+			if rname != expr {
+				// a parameter of the helper must not hide the receiver expression
+				for _, p := range fieldNames(fd.Type.Params, fs) {
+					if identsIn(sel.X)[p.name] {
+						return "", false
+					}
+				}
+				bind = fmt.Sprintf("var %s %s = %s\n_ = %s\n", rname, printNode(fs, fd.Recv.List[0].Type), expr, rname)
+			}
+		}
+	} else if _, isId := use.(*ast.Ident); !isId {
+		return "", false
+	}
+	var params []string
+	for _, f := range fd.Type.Params.List {
+		t := printNode(fs, f.Type)
+		if len(f.Names) == 0 {
+			params = append(params, "_ "+t)
+		}
+		for _, nm := range f.Names {
+			params = append(params, nm.Name+" "+t)
+		}
+	}
+	res := ""
+	if fd.Type.Results != nil {
+		var rs []string
+		for _, r := range fieldNames(fd.Type.Results, fs) {
+			if r.name == "_" {
+				rs = append(rs, r.typ)
+			} else {
+				rs = append(rs, r.name+" "+r.typ)
+			}
+		}
+		res = " (" + strings.Join(rs, ", ") + ")"
+	}
+	calleeFile := n.fset.File(c.decl.Pos()).Name()
+	bodyLine := n.fset.PositionFor(c.decl.Body.Lbrace, false).Line
+	fname := n.fset.File(use.Pos()).Name()
+	line := n.fset.PositionFor(use.End(), false).Line
+	body := strings.TrimSuffix(strings.TrimPrefix(strings.TrimSpace(printNode(fs, fd.Body)), "{"), "}")
+	return fmt.Sprintf("func(%s)%s {\n//line %s:%d\n%s%s\n//line %s:%d\n}", strings.Join(params, ", "), res, calleeFile, bodyLine+1, bind, body, fname, line), true
+}
+
 // exprText returns the source text of an expression of the loaded syntax.
 func (n *normalizer) exprText(e ast.Node) string {
 	name, s, t := n.offsets(e.Pos(), e.End())
@@ -1451,6 +1852,7 @@ func (n *normalizer) inlineRound() bool {
 		}
 		var sites []site
 		other := 0
+		valueUses := 0
 		for _, p := range modulePkgs(n.pkgs) {
 			for id, o := range p.TypesInfo.Uses {
 				if o != c.fn {
@@ -1472,6 +1874,17 @@ func (n *normalizer) inlineRound() bool {
 					if call, ok := path[k].(*ast.CallExpr); ok && ast.Node(call.Fun) == path[k-1] {
 						sites = append(sites, site{id, p, call, path[k:]})
 						continue
+					}
+				}
+				// the function used as a value (handed to a constructor, stored in a
+				// field): it becomes a function literal again
+				if expr, isExpr := path[k-1].(ast.Expr); isExpr && len(path) > k {
+					if _, isKV := path[k].(*ast.KeyValueExpr); isKV || true {
+						if txt, ok := n.valueLit(c, expr); ok && n.hygienic(c, expr.Pos()) && n.tryEdit(expr.Pos(), expr.End(), txt) {
+							valueUses++
+							changed = true
+							continue
+						}
 					}
 				}
 				other++
@@ -1593,10 +2006,10 @@ func (n *normalizer) inlineRound() bool {
 			done++
 			changed = true
 		}
-		if done > 0 {
-			n.notes = append(n.notes, fmt.Sprintf("normalise: new function %s (not in the pinned inventory) inlined at %d call site(s), %d other reference(s) left", short(c.fn.FullName()), done, other))
+		if done > 0 || valueUses > 0 {
+			n.notes = append(n.notes, fmt.Sprintf("normalise: new function %s (not in the pinned inventory) inlined at %d call site(s), turned back into a function literal at %d use(s) as a value, %d other reference(s) left", short(c.fn.FullName()), done, valueUses, other))
 		}
-		if done > 0 && other == 0 && n.droppable(c) {
+		if (done > 0 || valueUses > 0) && other == 0 && n.droppable(c) {
 			// drop the declaration, keeping the line structure
 			start := c.decl.Pos()
 			if c.decl.Doc != nil {
@@ -1666,10 +2079,19 @@ func normalizeStep(pkgs []*packages.Package, overlay map[string][]byte, phase in
 	if len(pkgs) == 0 {
 		return nil, nil, false
 	}
+	defer func() {
+		if e := recover(); e != nil {
+			next, changed = nil, false
+			notes = append(notes, fmt.Sprintf("normalise: internal error (%v); this step is abandoned and the rules see the source as it is", e))
+		}
+	}()
 	n := &normalizer{pkgs: pkgs, fset: pkgs[0].Fset, overlay: overlay, edits: map[string][]textEdit{}, seq: *seq}
-	if phase == 0 {
+	switch phase {
+	case -1:
+		n.renameTypesBack()
+	case 0:
 		n.renameBack()
-	} else {
+	default:
 		n.inlineRound()
 	}
 	*seq = n.seq
